@@ -90,7 +90,7 @@ type CPage struct {
 	Broken string // "", "404", "notjson", "wrongtype": the page cannot be loaded
 	URL    string
 	NoID   bool
-	RefStyle int // how a remote page is referred to: 0 URL string, 1 {"id"}, 2 {"id","type"}
+	RefStyle int // how a remote page is referred to: 0 URL string, 1 {"id"}, 2 {"id","type"}, 3 network-path reference, 4 path-absolute reference
 }
 
 // CLayout is a whole collection: a root plus a chain of pages, possibly cyclic.
@@ -218,7 +218,7 @@ func (f *Fedi) DrawLayout(host string, mkItem func(remote bool) CItem) *CLayout 
 		l.PageLinks = t.Chance(1, 3)
 		l.Nulls = t.Chance(1, 4)
 		for i := 0; i < np; i++ {
-			p := &CPage{Items: itemsFor(), Remote: t.Chance(1, 2), NoID: t.Chance(1, 6), RefStyle: t.Weighted(4, 1, 1)}
+			p := &CPage{Items: itemsFor(), Remote: t.Chance(1, 2), NoID: t.Chance(1, 6), RefStyle: t.Weighted(5, 1, 1, 1, 1)}
 			p.URL = fmt.Sprintf("https://%s/c/%d", host, f.next())
 			if f.QueryURLs {
 				// cursors that differ only in letter case are different pages: consecutive pages get
@@ -284,7 +284,8 @@ func (f *Fedi) Install(l *CLayout) {
 	}
 	// build pages back to front; cyclic references are always by URL
 	pageDocs := make([]Doc, len(l.Pages))
-	ref := func(i int) any {
+	// relOK: the referring document has an identity, so a relative reference has a base
+	ref := func(i int, relOK bool) any {
 		p := l.Pages[i]
 		if p.Remote {
 			switch p.RefStyle {
@@ -292,6 +293,15 @@ func (f *Fedi) Install(l *CLayout) {
 				return Doc{"id": p.URL} // a stub: must be dereferenced
 			case 2:
 				return Doc{"id": p.URL, "type": kind + "Page"}
+			case 3, 4:
+				// relative references (RFC 3986 4.2), resolved against the document they appear in
+				if pu, err := url.Parse(p.URL); err == nil && relOK {
+					f.r.S.Probe("page_referred_to_by_relative_reference")
+					if p.RefStyle == 3 {
+						return "//" + pu.Host + pu.RequestURI()
+					}
+					return pu.RequestURI()
+				}
 			}
 			return p.URL
 		}
@@ -307,7 +317,7 @@ func (f *Fedi) Install(l *CLayout) {
 			d[itemsKey] = values(p.Items)
 		}
 		if i < len(l.Pages)-1 {
-			d["next"] = ref(i + 1)
+			d["next"] = ref(i+1, !p.NoID || p.Remote)
 		} else if l.CycleTo >= 0 {
 			d["next"] = l.Pages[l.CycleTo].URL
 		} else if l.Nulls {
@@ -361,7 +371,7 @@ func (f *Fedi) Install(l *CLayout) {
 		root[itemsKey] = nil
 	}
 	if l.HasFirst && len(l.Pages) > 0 {
-		root["first"] = ref(0)
+		root["first"] = ref(0, true)
 	} else if l.Nulls {
 		root["first"] = nil
 	}
